@@ -521,15 +521,16 @@ func (s *stdioTransport) writeResponse(response interface{}, writer io.Writer) e
 		return fmt.Errorf("error marshaling response: %w", err)
 	}
 
+	verifEvent("stdio.write.begin", writer, data)
 	if _, err := writer.Write(data); err != nil {
 		return fmt.Errorf("error writing response: %w", err)
 	}
-	verifEvent("stdio.write.data", writer)
+	verifEvent("stdio.write.data", writer, data)
 
 	if _, err := writer.Write([]byte("\n")); err != nil {
 		return fmt.Errorf("error writing newline: %w", err)
 	}
-	verifEvent("stdio.write.nl", writer)
+	verifEvent("stdio.write.nl", writer, data)
 
 	// Force flush buffer to ensure immediate delivery.
 	if file, ok := writer.(*os.File); ok {
